@@ -272,15 +272,20 @@ inductive Err where
   | keyError
 deriving DecidableEq, Repr
 
-/-- `load_from_path`: new states of the loader's objects, or the `KeyError` raised by `self.checkpointables[key]` for a
-requested key the loader does not hold (`model` itself is not in `self.checkpointables`) -/
+/-- a requested, stored key that the loader does not hold: `self.checkpointables[key]` raises `KeyError`
+(`model` itself is not in `self.checkpointables`) -/
+def missing (objs file : Objs) : Mode → Bool
+  | .select keys => keys.any fun k => restores file (.select keys) k && (k == 0 || (objs.lookup k).isNone)
+  | _ => false
+
+/-- the loader's objects after `load_from_path` -/
+def loaded (objs file : Objs) (mode : Mode) : Objs :=
+  objs.map fun kv =>
+    if kv.1 == 0 || restores file mode kv.1 then (kv.1, (file.lookup kv.1).getD kv.2) else kv
+
+/-- `load_from_path`: new states of the loader's objects, or the `KeyError` -/
 def load (objs file : Objs) (mode : Mode) : Except Err Objs :=
-  let missing := match mode with
-    | .select keys => keys.any fun k => restores file mode k && (k == 0 || (objs.lookup k).isNone)
-    | _ => false
-  if missing then .error .keyError else
-  .ok (objs.map fun kv =>
-    if kv.1 == 0 || restores file mode kv.1 then (kv.1, (file.lookup kv.1).getD kv.2) else kv)
+  if missing objs file mode then .error .keyError else .ok (loaded objs file mode)
 
 /-- the dict `load` returns: whatever was not consumed -/
 def leftover (file : Objs) (mode : Mode) : List Key :=
